@@ -1169,6 +1169,12 @@ func Spec() *core.Spec {
 			{Name: "matrix", Exhaustive: true, N: func(string) int { return maxOps * len(kinds) }, Run: matrix, Timeout: 40 * time.Second},
 			{Name: "repeated-drops", Exhaustive: true, N: func(string) int { return 16 }, Run: repeatedDrops, Timeout: 40 * time.Second},
 			{Name: "context-looks", Exhaustive: true, N: func(string) int { return 14 * 3 * 2 }, Run: contextLooks, Timeout: 60 * time.Second},
+			{Name: "cluster-pool", N: func(tier string) int {
+				if tier == core.Thorough {
+					return 200
+				}
+				return 8
+			}, Run: clusterPool, Timeout: 120 * time.Second},
 			{Name: "replies-with-eof", N: func(tier string) int {
 				if tier == core.Thorough {
 					return 600
